@@ -31,6 +31,7 @@ class Driver:
         self.obs = []
         self.graph = None
         self.kept = {}           # named results kept alive (paths, edges ..)
+        self.ftable = []         # every verdict of the scenario's filter on this path
 
     # ---- values
     def val(self, v):
@@ -209,8 +210,132 @@ class Driver:
         self.drop_temps(t)
         return 'ok'
 
-    def op_dump(self):
+    def op_dump(self, lite=None):
+        if lite:
+            out = []
+            for i in range(len(self.nodes)):
+                r = Ref(self.nodes[i])
+                d = {'key': self.key_of(r), 'value': self.value_of(r)}
+                for kind in (('out', 'in') if self.directed else ('adj',)):
+                    d[kind] = [[k, v] for k, v, _ in self.adj_list(r, kind)]
+                out.append(d)
+            return out
         return [self.dump_node(i) for i in range(len(self.nodes))]
+
+    # ---- searches and orderings --------------------------------------------------------
+    def F(self):
+        f = self.ex.syms.get('F')
+        if f is None:
+            f = z3.Function('F', z3.IntSort(), z3.IntSort(), z3.IntSort(), z3.BoolSort())
+            self.ex.syms['F'] = f
+        return f
+
+    def filter_value(self, spec, u, v, e):
+        """outcome of the scenario's filter on edge (u,v,e): python bool (branching when symbolic)"""
+        flt = spec.get('filter')
+        if flt is None:
+            return True
+        if isinstance(flt, dict) and 's' in flt:
+            r = self.ex.branch(self.F()(u, v, e))
+            self.ftable.append((u, v, e, r))
+            return r
+        for (a, b, c, r) in flt['table']:
+            if _same(a, u) and _same(b, v) and _same(c, e):
+                return r
+        return flt.get('default', True)
+
+    def make_closure(self, spec, log):
+        method = spec.get('method', 'none')
+        if method == 'none':
+            return None
+
+        def fn(ex, edge_ref):
+            t = self.edge_triple(ex.deref(edge_ref))
+            if method == 'filter':
+                r = self.filter_value(spec, *t)
+                log.append(t + [r])
+                return r
+            log.append(t)
+            return UNIT()
+        return Ref(Cell(PyFn(fn)))
+
+    def algo_path(self, name):
+        mod = {'Bfs': 'bfs', 'Dfs': 'dfs', 'Pfs': 'pfs', 'Order': 'order'}[name]
+        return f"{self.fl}::node::algo::{mod}::{name}::<'_, K, N, E>"
+
+    def path_edges(self, p):
+        """Path value -> list of [u,v,e] (reads the public `edges` field)"""
+        return [self.edge_triple(e) for e in p.f[0].f]
+
+    def op_search(self, spec):
+        ex = self.ex
+        t = []
+        root = self.handle(spec['root'], t)
+        alg = spec['alg']
+        name = {'bfs': 'Bfs', 'dfs': 'Dfs', 'pfs': 'Pfs'}[alg]
+        ap = self.algo_path(name)
+        s = self.node_call(alg, [root])
+        if alg == 'pfs':
+            s = ex.call(f"{ap}::{spec.get('prio', 'min')}", [s])
+        if spec.get('target') is not None:
+            s = ex.call(f'{ap}::target', [s, Ref(Cell(self.keys[spec['target']]))])
+        if spec.get('transpose'):
+            s = ex.call(f'{ap}::transpose', [s])
+        log = []
+        clo = self.make_closure(spec, log)
+        if clo is not None:
+            s = ex.call(f"{ap}::{'filter' if spec['method'] == 'filter' else 'for_each'}", [s, clo])
+        sc = Cell(s)
+        mode = spec['mode']
+        r = ex.call(f"{ap}::{ {'search': 'search', 'path': 'search_path', 'cycle': 'search_cycle'}[mode] }", [Ref(sc)])
+        if r.variant == 0:
+            res = None
+        elif mode == 'search':
+            c = Cell(r.f[0])
+            res = self.key_of(Ref(c))
+        else:
+            res = self.path_edges(r.f[0])
+        keep = spec.get('keep')
+        if keep:
+            self.kept[keep] = Cell(r)
+        else:
+            ex.drop(r)
+        ex.drop(sc.v)
+        self.drop_temps(t)
+        return {'result': res, 'calls': log}
+
+    def op_order(self, spec):
+        ex = self.ex
+        t = []
+        root = self.handle(spec['root'], t)
+        ap = self.algo_path('Order')
+        if self.directed:
+            s = self.node_call('preorder' if spec['kind'] == 'pre' else 'postorder', [root])
+            if spec.get('transpose'):
+                s = ex.call(f'{ap}::transpose', [s])
+        else:
+            s = self.node_call('order', [root])
+            s = ex.call(f"{ap}::{spec['kind']}", [s])
+        log = []
+        clo = self.make_closure(spec, log)
+        if clo is not None:
+            s = ex.call(f"{ap}::{'filter' if spec['method'] == 'filter' else 'for_each'}", [s, clo])
+        sc = Cell(s)
+        if spec['mode'] == 'nodes':
+            r = ex.call(f'{ap}::search_nodes', [Ref(sc)])
+            rc = Cell(r)
+            res = [self.key_of(Ref(rc, (('i', i),))) for i in range(len(r.f))]
+        else:
+            r = ex.call(f'{ap}::search_edges', [Ref(sc)])
+            res = [self.edge_triple(e) for e in r.f]
+        keep = spec.get('keep')
+        if keep:
+            self.kept[keep] = Cell(r)
+        else:
+            ex.drop(r)
+        ex.drop(sc.v)
+        self.drop_temps(t)
+        return {'result': res, 'calls': log}
 
     def err_name(self, e):
         vs = self.ex.ix.enums.get(('error', 'Error'))
